@@ -2,7 +2,7 @@
 import re
 from fractions import Fraction
 import numpy as np
-from .. import biv, cases, implbiv
+from .. import biv, bivctlgen, cases, implbiv
 from ..core import frac
 
 FAMS = ['clayton', 'frank', 'gumbel']
@@ -73,6 +73,14 @@ def run_impl(fam, X, persistent=False):
         res = ('err', type(ex).__name__, str(ex)[:80])
     finally:
         base.stats.kendalltau = orig
+    if 'tau' not in rec:
+        # fit raised before reaching kendalltau: hand the model the oracle value anyway (a model that would have gone on
+        # must not be fed NaN, which makes it refuse with the same error class whatever the reason of the refusal)
+        try:
+            with np.errstate(all='ignore'):
+                rec['tau'] = float(orig(X[:, 0], X[:, 1])[0])
+        except Exception:
+            pass
     return c, rec.get('tau'), res
 
 
@@ -113,9 +121,18 @@ def run(ctx):
     bad = {k: v for k, v in {**status, **statusq}.items() if (k in needed or k in statusq) and v}
     for k in needed + list(statusq):
         ctx.obligation(f'translate:{k}', k not in bad, 'translation', bad.get(k, ''))
+    # second tie of the control skeleton: check_theta / check_fit / check_marginal / _compute_theta / fit translated statement by
+    # statement (Gen_bivctl.v); Props/C10.v proves them equal to Model.BivCtl (C10_bridge_*).  A failure here does not stop the
+    # correspondence below.
+    statusc = bivctlgen.generate(ctx)
+    for k in bivctlgen.PARTS:
+        ctx.obligation(f'translate:{k}', statusc.get(k, 'not attempted') is None, 'translation', statusc.get(k) or '')
+    ctx.rule('translation: Bivariate.check_theta / check_fit / check_marginal / _compute_theta / fit are translated from the AST on every '
+             'run into Gen_bivctl.v (strict shape check, fail-closed; operators, operand order, constants, error classes and statement '
+             'order from the source text); C10_bridge_check_theta / _check_fit / _check_marginal / _fit prove them equal to Model.BivCtl')
     if not bad:
         ctx.copy_src('Props/C10.v')
-        ctx.compile(['Gen_biv.v', 'Gen_bivq.v', 'C10.v'])
+        ctx.compile(['Gen_biv.v', 'Gen_bivq.v', 'Gen_bivctl.v', 'C10.v'])
     ctx.rule('correspondence: (n,2) pseudo-observation tables (designed tau=0 / monotone / anti-monotone / constant / out-of-range / two-row / '
              'edge tables plus random Gaussian-copula tables, a third rounded to one decimal for heavy ties) x 3 families; the implementation '
              'fit outcome (tau, theta | error class) is compared with vm_compute of Model.BivCtl.fit_ctl on the exact rational data and the '
@@ -204,4 +221,7 @@ def run(ctx):
     ctx.extra['fits_agreeing'] = n_ok
     ctx.trusted += ['scipy.stats.kendalltau, scipy.optimize.least_squares and scipy.integrate.quad are oracles (captured values); '
                     'quad is denoted by the Riemann integral RInt']
-    ctx.assumptions += ['Model.BivCtl (control skeleton of fit/check_theta/check_fit/check_marginal) is hand-written; tied by this correspondence']
+    ctx.assumptions += ['Model.BivCtl (control skeleton of fit/check_theta/check_fit/check_marginal) is hand-written; tied by this correspondence and by the '
+                        'translation of the current source (tools/vf/bivctlgen.py -> Gen_bivctl.v) proved equal to it in Props/C10.v (non-empty columns)']
+    ctx.trusted += ['tools/vf/bivctlgen.py: the py_* / f_* vocabulary (fixed header of Gen_bivctl.v) and the shape-checking translator; '
+                    'stats.kendalltau and the family compute_theta are parameters of the generated fit']
